@@ -10,12 +10,14 @@ Method (Ridders 1982; Numerical Recipes ``dfridr``): the central difference
     order 2:  D(h) = (f(x+h) - 2 f(x) + f(x-h)) / h^2
 
 has an error expansion in even powers of ``h``; a Neville tableau over the step sequence
-``h0, h0/c, h0/c^2, ...`` (c = 1.4) removes them one after the other.  Each new tableau entry comes with
-the error estimate ``max(|a[j][i]-a[j-1][i]|, |a[j][i]-a[j-1][i-1]|)``; the entry with the smallest
-estimate is returned, and an element stops as soon as the diagonal gets worse by a factor SAFE (round-off
-has taken over).  To the extrapolation estimate we add an explicit round-off term
-``eps * max|f| / h`` (``4 eps max|f| / h^2``) at the step that produced the answer, so the reported
-error never falls below what float64 noise in ``f`` can produce.
+``h0, h0/c, h0/c^2, ...`` (c = 1.5, 10 columns) removes them one after the other.  Each new tableau entry comes with
+the error estimate ``max(|a[j][i]-a[j-1][i]|, |a[j][i]-a[j-1][i-1]|)``.  Unlike ``dfridr`` the tableau is
+always completed (no early exit: two coarse differences that agree by accident would end it with a far too
+small estimate - this happened on a lookback vega while the check was developed); the answer is the best
+entry of the column with the smallest estimate, and the reported error is the maximum of that estimate and
+of the distances to the best answers of the two neighbouring columns, plus an explicit round-off term
+``eps * max|f| / h`` (``4 eps max|f| / h^2``) at the step that produced the answer, so the reported error
+never falls below what float64 noise in ``f`` can produce.
 
 The estimate is heuristic (as every a-posteriori estimate of a black box); users multiply it by a
 safety factor and add an absolute floor.  ``selfcheck`` compares the routine with exactly known
@@ -25,67 +27,84 @@ from typing import Callable, Tuple
 
 import numpy as np
 
-CON = 1.4
+CON = 1.5
 CON2 = CON * CON
-NTAB = 12
-SAFE = 2.0
+NTAB = 10
 EPS = 2.0 ** -52
 
 
-def ridders(f: Callable[[np.ndarray], np.ndarray], x, h0, order: int = 1, ntab: int = NTAB
+def ridders(f: Callable[[np.ndarray], np.ndarray], x, h0, order: int = 1, ntab: int = NTAB, fscale=0.0
             ) -> Tuple[np.ndarray, np.ndarray]:
     """-> (derivative, error estimate), elementwise.
 
-    f     : elementwise function of an array shaped like ``x``
+    f     : elementwise function; it is called once with an array of shape (2*ntab+1,) + x.shape
     x     : points (array)
     h0    : initial steps (array like x, > 0); f must be smooth on [x-h0, x+h0]
     order : 1 or 2
+    fscale: magnitude of the terms f is computed from (array like x or scalar).  The round-off of f is
+            eps * max(|f|, fscale): a value that is small by cancellation (an at-the-money call price is
+            S N(d1) - K N(d2)) still carries the absolute rounding error of its terms.
     """
     if order not in (1, 2):
         raise ValueError("order must be 1 or 2")
     x = np.asarray(x, dtype=np.float64)
+    fscale = np.broadcast_to(np.asarray(fscale, dtype=np.float64), x.shape)
     h = np.broadcast_to(np.asarray(h0, dtype=np.float64), x.shape).copy()
     if not (h > 0).all():
         raise ValueError("h0 must be positive")
     shape = x.shape
-    f0 = np.asarray(f(x), dtype=np.float64) if order == 2 else None
+    # all abscissae in one call: f is elementwise, so it is evaluated on an array of shape (2*ntab+1,) + x.shape
+    # whose first axis runs over x+h_i, x-h_i (i = 0..ntab-1) and x itself (f must broadcast over leading axes)
+    hs = np.stack([h / CON ** i for i in range(ntab)])
+    X = np.concatenate([x[None, ...] + hs, x[None, ...] - hs, x[None, ...]])
+    FX = np.asarray(f(X), dtype=np.float64)
+    if FX.shape != X.shape:
+        raise ValueError(f"f returned shape {FX.shape} for input shape {X.shape}")
+    f0 = FX[2 * ntab]
 
-    def diff(hh):
-        # use the exactly representable step (x+h)-x
-        xp = x + hh
-        xm = x - hh
-        fp = np.asarray(f(xp), dtype=np.float64)
-        fm = np.asarray(f(xm), dtype=np.float64)
-        mag = np.maximum(np.abs(fp), np.abs(fm))
+    def diff(i):
+        hh = hs[i]
+        xp, xm = X[i], X[ntab + i]
+        fp, fm = FX[i], FX[ntab + i]
+        mag = np.maximum(np.maximum(np.abs(fp), np.abs(fm)), fscale)
         if order == 1:
-            return (fp - fm) / (xp - xm), EPS * mag / hh
+            return (fp - fm) / (xp - xm), EPS * mag / hh  # the exactly representable step
         mag = np.maximum(mag, np.abs(f0))
         return ((fp - f0) - (f0 - fm)) / (hh * hh), 4.0 * EPS * mag / (hh * hh)
 
     a = np.empty((ntab, ntab) + shape)
-    a[0, 0], noise0 = diff(h)
-    ans = a[0, 0].copy()
-    err = np.full(shape, np.inf)
-    noise = noise0.copy()
-    done = np.zeros(shape, dtype=bool)
+    col_ans = np.empty((ntab,) + shape)   # best entry of each column ...
+    col_err = np.full((ntab,) + shape, np.inf)   # ... and its tableau error estimate
+    col_noise = np.empty((ntab,) + shape)
+    a[0, 0], col_noise[0] = diff(0)
+    col_ans[0] = a[0, 0]
     for i in range(1, ntab):
-        h = h / CON
-        a[0, i], noise_i = diff(h)
+        a[0, i], col_noise[i] = diff(i)
+        col_ans[i] = a[0, i]
         fac = CON2
         for j in range(1, i + 1):
             a[j, i] = (a[j - 1, i] * fac - a[j - 1, i - 1]) / (fac - 1.0)
             fac *= CON2
             errt = np.maximum(np.abs(a[j, i] - a[j - 1, i]), np.abs(a[j, i] - a[j - 1, i - 1]))
-            better = (~done) & (errt <= err)
-            if better.any():
-                err = np.where(better, errt, err)
-                ans = np.where(better, a[j, i], ans)
-                noise = np.where(better, noise_i, noise)
-        done = done | (np.abs(a[i, i] - a[i - 1, i - 1]) >= SAFE * err)
-        if done.all():
-            break
+            better = errt <= col_err[i]
+            col_err[i] = np.where(better, errt, col_err[i])
+            col_ans[i] = np.where(better, a[j, i], col_ans[i])
+    # No early termination (two neighbouring differences that agree by accident would otherwise stop the
+    # tableau with a tiny estimate): take the column with the smallest estimate + round-off level and require its
+    # answer to be reproduced by the best answers of both neighbouring columns.
+    with np.errstate(invalid="ignore"):
+        score = col_err + col_noise
+        best = np.argmin(np.where(np.isfinite(score), score, np.inf)[1:], axis=0) + 1
+    take = lambda arr, idx: np.take_along_axis(arr, idx[None, ...], axis=0)[0]
+    ans = take(col_ans, best)
+    err = take(col_err, best)
+    lo = np.maximum(best - 1, 1)
+    hi = np.minimum(best + 1, ntab - 1)
+    err = np.maximum(err, np.abs(ans - take(col_ans, lo)))
+    err = np.maximum(err, np.abs(ans - take(col_ans, hi)))
+    err = err + take(col_noise, best)
     bad = ~np.isfinite(ans) | ~np.isfinite(err)
-    err = np.where(bad, np.inf, err + noise)
+    err = np.where(bad, np.inf, err)
     return ans, err
 
 
